@@ -61,6 +61,8 @@ class Unit:
         self.r["paths_cut"] += ex.paths_cut
         self.r["solver_s"] += ex.solver_s
         self.r["solver_checks"] += ex.checks
+        self.r["unknown_forks"] = self.r.get("unknown_forks", 0) + ex.unknown_forks
+        ex.unknown_forks = 0
         ex.paths_cut = 0
         ex.solver_s = 0.0
         ex.checks = 0
@@ -360,6 +362,7 @@ class Check:
             "obligations": tot("obligations"), "discharged": tot("discharged"),
             "unknown": tot("unknown"),
             "solver_checks": tot("solver_checks"),
+            "fork_feasibility_unknown_treated_as_feasible": sum(u.get("unknown_forks", 0) for u in self.units),
             "solver_s": round(tot("solver_s"), 2),
             "vacuity_witnesses_ok": tot("vacuity_ok"),
             "vacuity_witnesses_failed": tot("vacuity_fail"),
